@@ -1,3 +1,73 @@
-import PGM.Model.Total
+import PGM.Proofs.TotalSem
+/-!
+# C09 — known totals are honoured; unknown totals are the best linear estimate
+
+Theorems about `PGM/Model/Total.lean` (the total estimate of `inference.py:289-304` and its copies),
+instantiated at any linearly ordered field.  `lsmr` is modelled by its contract (minimum-norm
+least-squares solution), computed exactly by certified Gauss–Jordan elimination.
+-/
 namespace PGM.C09
+open PGM PGM.Total
+variable {K : Type} [Field K] [LinearOrder K] [IsStrictOrderedRing K]
+
+/-- a supplied total is used exactly -/
+theorem total_given_used (t : K) (meas : List (Meas K)) : totalOf (some t) meas = t :=
+  Total.total_given_used t meas
+
+/-- whatever is estimated is at least 1 … -/
+theorem total_ge_one (meas : List (Meas K)) : 1 ≤ totalEstimate meas :=
+  Total.total_ge_one meas
+
+/-- … and exactly 1 when no measurement's queries can express the overall count -/
+theorem total_no_qualifying (meas : List (Meas K)) (h : ∀ m ∈ meas, unbiasedVec m.Q = none) :
+    totalEstimate meas = 1 :=
+  Total.total_no_qualifying meas h
+
+/-- the vector a qualifying measurement is used with is certified: `Qᵀ v = 1` and `v ∈ range Q` -/
+theorem unbiasedVec_spec (Q : List (List K)) (v : List K) (h : unbiasedVec Q = some v) :
+    matTVec Q v = ones (ncols Q) ∧ ∃ z, v = matVec Q z :=
+  Total.unbiasedVec_spec Q v h
+
+/-- **unbiasedness**: if `Qᵀ v = 1` then `⟨v, Q x⟩ = Σ x` for every data vector `x` -/
+theorem unbiased (Q : List (List K)) (v x : List K) (hQ : Rect Q) (hv : matTVec Q v = ones (ncols Q))
+    (hvl : v.length = Q.length) (hx : x.length = ncols Q) :
+    dot v (matVec Q x) = x.sum :=
+  Total.unbiased Q v x hQ hv hvl hx
+
+/-- **minimum variance within a measurement**: among all `u` with `Qᵀ u = 1`, the vector in the
+range of `Q` (the minimum-norm solution that `lsmr` returns) has the smallest `⟨u,u⟩` -/
+theorem minnorm_minimises_variance (Q : List (List K)) (v u : List K) (hQ : Rect Q)
+    (hv : unbiasedVec Q = some v) (hu : matTVec Q u = ones (ncols Q)) (hul : u.length = Q.length) :
+    dot v v ≤ dot u u :=
+  Total.minnorm_minimises_variance Q v u hQ hv hu hul
+
+/-- **completeness of the qualification test**: a measurement qualifies iff the ones vector is in
+the row space of its query matrix -/
+theorem qualifies_iff_rowspace (Q : List (List K)) (hQ : Rect Q) (hne : Q ≠ []) :
+    (unbiasedVec Q).isSome ↔ ∃ u : List K, u.length = Q.length ∧ matTVec Q u = ones (ncols Q) :=
+  Total.qualifies_iff_rowspace Q hQ hne
+
+/-- **inverse-variance weighting is the best linear combination**: `combine` is the weighted mean
+with weights `(1/varᵢ)/Σ(1/varⱼ)`, which sum to one, and no other weights summing to one give a
+smaller variance `Σ wᵢ² varᵢ` -/
+theorem invvar_is_blue (ev : List (K × K)) (hne : ev ≠ []) (hpos : ∀ p ∈ ev, 0 < p.2)
+    (w : List K) (hwl : w.length = ev.length) (hw : w.sum = 1) :
+    let W := (ev.map (fun p => 1 / p.2)).sum
+    combine ev = (ev.map (fun p => (1 / p.2 / W) * p.1)).sum ∧
+    (ev.map (fun p => 1 / p.2 / W)).sum = 1 ∧
+    (ev.map (fun p => (1 / p.2 / W) ^ 2 * p.2)).sum = 1 / W ∧
+    1 / W ≤ (List.zipWith (fun wi p => wi ^ 2 * p.2) w ev).sum :=
+  Total.invvar_is_blue ev hne hpos w hwl hw
+
+/-- **noise-free measurements recover N exactly**: if every measurement is `y = Q x` of a data
+vector with `Σ x = N ≥ 1`, noise scales are positive and at least one measurement qualifies, the
+estimated total is `N` — for every query matrix with the ones vector in its row space, any size -/
+theorem noise_free_total (meas : List (Meas K)) (N : K) (hN : 1 ≤ N)
+    (hrect : ∀ m ∈ meas, Rect m.Q) (hnoise : ∀ m ∈ meas, 0 < m.noise)
+    (hy : ∀ m ∈ meas, ∃ x : List K, x.length = ncols m.Q ∧ x.sum = N ∧ m.y = matVec m.Q x)
+    (hq : ∃ m ∈ meas, (unbiasedVec m.Q).isSome)
+    (hnz : ∀ m ∈ meas, ncols m.Q ≠ 0) :
+    totalEstimate meas = N :=
+  Total.noise_free_total meas N hN hrect hnoise hy hq hnz
+
 end PGM.C09
